@@ -14,6 +14,7 @@ from vt.world import World, WSpec
 ID = 'C09'
 KIND = 'explorer'
 LEVEL = 'model_checking'
+LIVE = {'quick': ['external-kill-then-stop'], 'thorough': ['external-kill-then-stop', 'exit3-respawn', 'incr-decr-restart', 'stubborn-stop']}
 GRAPH = {'quick': 2, 'thorough': 3}
 BUDGET = {'quick': 150, 'thorough': 1500}
 RULE = ('breadth-first search over canonical quiescent states; bursts of <= (1 request + 1 worker death) with the '
